@@ -1,5 +1,6 @@
 import AbtemVerif.Model.Proto
 import AbtemVerif.Model.Prism
+import AbtemVerif.Model.PrismEnsemble
 open AbtemVerif AbtemVerif.Proto AbtemVerif.Prism AbtemVerif.Gen.Prism
 
 /- requests (see harness/c06.py):
@@ -9,7 +10,8 @@ open AbtemVerif AbtemVerif.Proto AbtemVerif.Prism AbtemVerif.Gen.Prism
    windows <n0> <n1> <w0> <w1> <px,py;…>            -> ok <flat window>;<flat window>… | err <kind>
    expect <n0> <n1> <w0> <w1> <px,py>               -> ok <flat window>
    phase <gx|gy|cu|px|py> <pi> <args…>              -> ok <rat>
-   amp <interp> <npix>                              -> ok <rat> -/
+   amp <interp> <npix>                              -> ok <rat>
+   eager <mean T|F> <isWaves T|F> <m> <r;r;…>       -> ok <rows of the measurement allocated and filled by the eager path> -/
 
 def iota (n1 : Nat) : Nat → Nat → Int := fun i j => (i * n1 + j : Nat)
 
@@ -71,6 +73,12 @@ def handle : List String → String
       else "bad-op"
     | some [pi, x, y, kx, ky] => if which = "cu" then s!"ok {showRat (posPhaseCustom pi x y kx ky)}" else "bad-op"
     | _ => "bad-op"
+  | ["eager", mean, isw, m, rs] =>
+    match parseBool? mean, parseBool? isw, parseNat? m, parseListList? parseRat? rs with
+    | some mean, some isw, some m, some rs =>
+      if rs.any (fun r => r.length ≠ m) then "bad-op" else
+      s!"ok {showListList showRat (AbtemVerif.PrismEnsemble.eagerDetect mean isw m rs)}"
+    | _, _, _, _ => "bad-op"
   | ["amp", interp, npix] =>
     match parseRat? interp, parseRat? npix with
     | some a, some b => if b = 0 then "err zero_division" else s!"ok {showRat (smatrixAmplitude a b)}"
